@@ -24,8 +24,14 @@ pub fn count() -> u64 {
 
 /// Counts one unit of work at the named site.
 pub fn tick(site: &'static str) {
+    tick_n(site, 1)
+}
+
+/// Counts `units` of work at the named site, for steps whose cost grows with
+/// the size of the values they handle.
+pub fn tick_n(site: &'static str, units: u64) {
     let n = COUNT.with(|c| {
-        let n = c.get() + 1;
+        let n = c.get().saturating_add(units);
         c.set(n);
         n
     });
